@@ -202,6 +202,8 @@ def call_ext(I: Interp, name: str, args, kwargs, fr: Frame, node=None):
                 return PSpace("dict", items={})
             if isinstance(src, PSpace) and src.kind == "raw":
                 return PSpace("dict", items=dict(src.items))
+            if isinstance(src, PSpace) and src.kind == "family":
+                return src  # spaces.Dict({k(i): space(i) for i in ...})
             if isinstance(src, SV) and T.strip_opt(src.ty).k == "dict":
                 n = smt.simp(z3.Select(st.arr("dsz"), smt.rid(src.t)))
                 if z3.is_int_value(n) and n.as_long() == 0:
